@@ -111,6 +111,10 @@ package protocol
 //@   ensures [C06,C07,C14 multi134] err == nil && int(actualMsgFmt) != 99 && int(actualMsgFmt) != 0 && len(smppenc(int(actualMsgFmt), content)) > 140 ==> len(contents) == (len(smppenc(int(actualMsgFmt), content)) + 133) / 134 && len(contents) <= 255 && partsOf(contents, smppenc(int(actualMsgFmt), content), int(frameKey), 134)
 //@   ensures [C06,C07,C14 multi153] err == nil && int(actualMsgFmt) == 0 && len(gsmenc(content)) > 160 ==> len(contents) == (len(gsmenc(content)) + 152) / 153 && len(contents) <= 255 && partsOf(contents, gsmenc(content), int(frameKey), 153)
 //@   ensures [C06 packed] int(msgFmt) == 99 && err == nil ==> int(actualMsgFmt) == 99 || int(actualMsgFmt) == 8
+//@   ensures [C06,C07,C14 packed.ok] int(msgFmt) == 99 && gsmvalid(content) && gsmencodable(content) && (len(gsmseptets(content)) <= 160 || cuts(gsmseptets(content), 0) <= 255) ==> err == nil && int(actualMsgFmt) == 99
+//@   ensures [C06,C07,C14 packed.fallback] int(msgFmt) == 99 && !(gsmvalid(content) && gsmencodable(content) && (len(gsmseptets(content)) <= 160 || cuts(gsmseptets(content), 0) <= 255)) ==> err != nil || int(actualMsgFmt) == 8
+//@   ensures [C06,C07,C14 packed.single] int(msgFmt) == 99 && err == nil && int(actualMsgFmt) == 99 && len(gsmseptets(content)) <= 160 ==> len(contents) == 1 && contents[0] == packimg(gsmseptets(content))
+//@   ensures [C06,C07,C14 packed.parts] int(msgFmt) == 99 && err == nil && int(actualMsgFmt) == 99 && len(gsmseptets(content)) > 160 ==> len(contents) == cuts(gsmseptets(content), 0) && (forall k int :: 0 <= k && k < len(contents) ==> contents[k] == cat(udh(int(frameKey), len(contents), k + 1), packimg(ext(gsmseptets(content), cutAt(gsmseptets(content), k), cutAt(gsmseptets(content), k + 1)))))
 
 // ---------------------------------------------------------------- protocol-level content decoders (C05)
 
